@@ -249,7 +249,7 @@ func (c *Cache[K, V]) MapToCache(m map[K]V, d time.Duration) error {
 		err = errors.Join(err, e)
 	}
 
-	return errors.Unwrap(err)
+	return err
 }
 
 // IsExpired checks if a cache item is expired.
